@@ -306,6 +306,7 @@ def replay_stream(c, cases, pr, layout, numgo, prefix, mode, nvk, chosen, label,
             "matched_snapshot_at_entry": sum(1 for r in results if r["ok"] and r["alt"] == 0),
             "matched_later_single_snapshot": sum(1 for r in results if r["ok"] and r["alt"] > 0),
             "send_calls": sum(r.get("sends", 0) for r in results),
+            "cases_whose_load_needed_3_or_more_loader_batches": sum(1 for r in results if r.get("loadBatches", 0) >= 3),
             "wall_s": round(time.time() - t0, 1)}
     c.cov["engines"].append(stat)
     per_sig = {}
